@@ -218,6 +218,9 @@ func c15(tier string) int {
 				ds.ImpactRates[i] = floats[(i+d)%len(floats)]
 			}
 			ds.PowerOutputs[2015], ds.ImpactRates[2015] = 1<<64-1, -0.0
+			// the values the server gives a meaning to (0 blank, 1 banned, 2 and 3 client sentinels) are values like any other
+			ds.PowerOutputs[1], ds.PowerOutputs[2], ds.PowerOutputs[3], ds.PowerOutputs[4] = 1, 2, 3, 0
+			ds.ImpactRates[1], ds.ImpactRates[2] = 1, 0
 			ads.Devices = append(ads.Devices, ds)
 			wr.Devices = append(wr.Devices, weekDevice{Key: ds.PublicKey, Power: ds.PowerOutputs, Rate: ds.ImpactRates})
 		}
